@@ -120,10 +120,15 @@ class ExprMixin:
             if is_sym(x) or contains_sym(x):
                 if v.format_spec is None and v.conversion in (-1, 115):
                     try:
-                        parts.append(self.b_str([self.unwrap(x, e) if not self.cur_pure() or not isinstance(x, VOpt) else x.val], {}, e, fr))
+                        if isinstance(x, VOpt):
+                            # formatting None is legal: 'None'
+                            inner = self.b_str([x.val], {}, e, fr) if x.val is not None else z3.StringVal('None')
+                            parts.append(self.ite(x.none, z3.StringVal('None'), inner))
+                        else:
+                            parts.append(self.b_str([x], {}, e, fr))
                         symbolic = True
                         continue
-                    except Unsupported:
+                    except (Unsupported, PyRaise):
                         pass
                 # text with parts that cannot be rendered (repr, format specs, objects) is an opaque string
                 self.assumptions.add('f-string text with unrenderable symbolic parts is an opaque string')
